@@ -123,6 +123,35 @@ def h_iter() -> Union[bool, str]:
     return _check(q, doc)
 
 
+MIXED_VALUES = [0, False, 1, True, 1.0, 0.0, -1, "", "a", None, [], {}, [0], {"a": 0}, {"a": False}]
+MIXED_QUERIES = ["$[?@ == 1]", "$[?@ == true]", "$[?@ == 0]", "$[?@ == false]", "$[?@ != 0]", "$[?@]", "$[?!@]", "$[?@ >= 0]", "$[?@ == '']", "$[?@ == null]", "$[?@.a == 0]", "$[?@.a]",
+                 "$[?@ == $[0]]", "$[?@ == $[1] || @ == $[2]]", "$[?length(@) == 0]", "$[?count(@.*) == 1]", "$[?@[0] == 0]", "$.*[?@ == 0]", "$..[?@ == false]"]
+
+
+def c_mixed_siblings():
+    """Supplementary *finite enumeration* (not symbolic): every array of up to 3 siblings and every 2-member object over 15
+    values chosen so that Python-equal values of different JSON kinds sit next to each other (0/false/0.0, 1/true/1.0, ""/null,
+    []/{}), against the reference evaluation - the per-child independence of filter evaluation for look-alike siblings."""
+    import itertools
+
+    n = 0
+    compiled = [(q, jp.compile(q), ref_parse(q, FNS.signatures())) for q in MIXED_QUERIES]
+    docs = []
+    for k in (1, 2, 3):
+        for combo in itertools.product(range(len(MIXED_VALUES)), repeat=k):
+            docs.append([MIXED_VALUES[i] for i in combo])
+    for a, b in itertools.product(range(len(MIXED_VALUES)), repeat=2):
+        docs.append({"x": MIXED_VALUES[a], "y": MIXED_VALUES[b]})
+        docs.append([{"a": MIXED_VALUES[a]}, {"a": MIXED_VALUES[b]}])
+    for doc in docs:
+        for q, c, ast in compiled:
+            n += 1
+            r = evalh.check_nodes(c.find(doc), ref_eval(ast, doc, None, FNS), doc)
+            if r is not True:
+                return {"status": "refuted", "failure": "%s on %r: %s" % (q, doc, r), "replay_module": "vtools.props.c02", "replay_func": "r_filter", "replay_args": {"query": q, "doc": doc}, "paths": n}
+    return {"status": "confirmed", "paths": n, "confirmed_paths": n, "queries": [{"claim": "%d (query, document) pairs over look-alike siblings equal the reference evaluation" % n, "result": "finite enumeration"}]}
+
+
 def h_reach() -> bool:
     """Reachability twin: must be refuted (a falsy existing member is selected by an existence test)."""
     child = hcommon.sym_json("c", 1, 1, kind=6, strlen=1, names=["a", "b"])
@@ -161,6 +190,7 @@ def obligations(tier: str):
     for qi, q in enumerate(ITER):
         for w in ("array", "object"):
             obls.append({"id": "iter%02d.%s" % (qi, w), "func": "h_iter", "params": {"query": q, "wrap": w, "maxkids": 2 if tier == "quick" else 3}, "timeout": t})
+    obls.append({"id": "mixed_siblings", "kind": "concrete", "func": "c_mixed_siblings", "timeout": 600})
     obls.append({"id": "reach", "func": "h_reach", "timeout": 120, "expect": "refuted"})
     for j, (pre, suf) in enumerate(holes.hole_instances(LOGIC_SEEDS, replace=(1,)) if tier == "quick" else holes.hole_instances(FILTER_SEEDS)):
         obls.append(holes.obligation("group%04d.k1" % j, pre, suf, 1, "accept", 120))
